@@ -74,6 +74,8 @@ def roots(tier, seed):
                             case["explore"] = 0
                             out.append(case)
     out += ctrl.roots(tier, deep=False)
+    from .. import cover
+    out += cover.roots_for(tier)
     return alpha.permute(out, seed)
 
 
